@@ -160,7 +160,57 @@ def apply_edit(cs, name, a):
     elif name == "set_styles":
         cs.set_styles({k: dict(v) for k, v in a["styles"].items()})
     elif name == "style_item":
-        cs.get_style(a["sel"])[a["k"]] = a["v"]
+        sel = a.get("sel")
+        if "sel_idx" in a:   # the n-th selector the set actually has (chosen when the edit executes)
+            keys = [k for k, _ in cs.get_styles()]
+            if not keys:
+                return "noop"
+            sel = keys[a["sel_idx"] % len(keys)]
+        cs.get_style(sel)[a["k"]] = a["v"]
+    elif name == "touch_styles":
+        # one legitimate edit per style dict the public model exposes: set styles, caption styles, style nodes
+        tag = a["tag"]
+        n = 0
+        for _sel, rules in cs.get_styles():
+            if isinstance(rules, dict):
+                rules["x-touched"] = tag
+                n += 1
+        for lang in langs:
+            for c in cs.get_captions(lang):
+                if isinstance(c.style, dict):
+                    c.style["x-touched"] = tag
+                    n += 1
+                for nd in c.nodes:
+                    if nd.type_ == 2 and isinstance(nd.content, dict):
+                        nd.content["x-touched"] = tag
+                        n += 1
+        return "ok" if n else "noop"
+    elif name == "touch_nodes":
+        tag = a["tag"]
+        n = 0
+        for lang in langs:
+            for c in cs.get_captions(lang):
+                c.start = c.start + 1
+                c.end = c.end + 1
+                for nd in c.nodes:
+                    if nd.type_ == 1 and isinstance(nd.content, str):
+                        nd.content = nd.content + tag
+                    elif nd.type_ == 3:
+                        nd.content = tag
+                    nd.position = tag
+                    n += 1
+        return "ok" if n else "noop"
+    elif name == "touch_lists":
+        from pycaption import CaptionNode, Caption
+        tag = a["tag"]
+        n = 0
+        for lang in langs:
+            cl = cs.get_captions(lang)
+            for c in list(cl):
+                c.nodes.append(CaptionNode.create_text(tag))
+                n += 1
+            cl.append(Caption(86400000000, 86401000000, [CaptionNode.create_text(tag)], style={}))
+        return "ok" if n else "noop"
     elif name == "cap_style_item":
         c = cap()
         if c is None:
